@@ -16,7 +16,8 @@ def canon_model(m):
 
 def library_half(ctx, binp):
     q = ctx.quick
-    consts = {"OldSel": {0, 3, 6, 21} if not q else {0, 3, 6}, "NewSel": {0, 5, 3, 26, 31} if not q else {0, 5, 26},
+    consts = {"OldSel": {0, 3, 6, 21, 96} if not q else {0, 3, 6, 32}, "NewSel": {0, 5, 3, 26, 31, 127} if not q else {0, 5, 26, 96},
+              "DupSet": "{TRUE, FALSE}",
               "TextAlpha": {97, 12354, 28450}, "MaxText": 4 if not q else 3, "BadCounts": True, "NoCngSet": "{TRUE, FALSE}"}
     res = vlib.tlc("C19-gen-dictedit", "Gen_DictEdit", vlib.cfg_text(constants=consts, invariants=["DiffLaw", "Emit"]))
     if res["violated"]:
@@ -70,6 +71,7 @@ def tool_half(ctx, binp):
     os.makedirs(wd, exist_ok=True)
     base = {"bias": 7, "cw": 1, "tw": 1, "cng": [{"ng": [97], "w": [1, -1]}], "tng": [], "dict": [], "tags": []}
     events, meta = [], {}
+    cases = [{"dict": []}] + cases        # a model whose dictionary is empty must survive dump -> replace as well
     for i, c in enumerate(cases):
         m = dict(base, dict=c["dict"])
         mj, mz, csvp, outz = (os.path.join(wd, f"m{i}.{x}") for x in ("json", "zst", "csv", "out.zst"))
